@@ -14,6 +14,7 @@ from mc import common
 
 R = common.bootstrap()
 from mc import dsched, explore, world as W  # noqa: E402
+from mc.ref import format as F  # noqa: E402
 
 W.install_virtual_time()
 
@@ -138,7 +139,7 @@ def check_manifest(repo, store, res, d, tree):
         parts = []
         for cd in sorted(f['chunks'], key=lambda x: x['counter']):
             digest = res.chunks[cd['index']]
-            loc = repo._chunk_digest_to_location(digest)
+            loc = F.Reader(store.o).chunk_location(digest)     # documented naming scheme (unencrypted repository)
             if loc not in store.o:
                 problems.append(f'chunk {loc[:20]} referenced by {Path(f["path"]).name} missing')
                 parts.append(b'?')
@@ -150,7 +151,7 @@ def check_manifest(repo, store, res, d, tree):
         got[f['path']] = b''.join(parts)
         if f['digest'] is None or f['metadata'] is None:
             problems.append(f'file {Path(f["path"]).name} has no digest/metadata')
-        elif f['digest'] != repo.props.hash_digest(want.get(f['path'], b'')):
+        elif f['digest'] != F.Reader(store.o).H(want.get(f['path'], b'')):
             problems.append(f'file {Path(f["path"]).name} digest mismatch')
     if got != want:
         for k in sorted(set(got) | set(want)):
@@ -159,6 +160,24 @@ def check_manifest(repo, store, res, d, tree):
     if res.location not in store.o:
         problems.append('snapshot object missing')
     return problems
+
+
+def slot_resources(repo):
+    """What the Repository object holds in the way of counted resources - every queue, semaphore and collection of
+    integers among its attributes, whatever they are called. "All connection slots are available again" = this is the
+    same after the command as before it."""
+    import asyncio
+    sig = {}
+    for k, v in vars(repo).items():
+        if isinstance(v, asyncio.Queue):
+            sig[k] = ('queue', v.qsize())
+        elif isinstance(v, (asyncio.Semaphore, dsched.CSemaphore)):
+            sig[k] = ('semaphore', getattr(v, '_value', getattr(v, 'value', None)))
+        elif isinstance(v, (list, set, frozenset, tuple)) and v and all(isinstance(i, int) for i in v):
+            sig[k] = ('ints', tuple(sorted(v)))
+        elif isinstance(v, dsched.CQueue):
+            sig[k] = ('queue', len(v.q))
+    return sig
 
 
 @explore.register
@@ -189,6 +208,7 @@ def run_c09(params, prefix):
     async def go():
         repo = await W.a_open(store, None, N=N, backend=backend)
         holder['repo'] = repo
+        holder['resources'] = slot_resources(repo)
         with W.captured():
             if kind == 'snapshot':
                 res = await repo.snapshot(paths=[d], rate_limit=params.get('rate'))
@@ -266,9 +286,10 @@ def run_c09(params, prefix):
                 bad('wrong-result', problems=problems[:5])
     if inflight > N:
         bad('inflight', inflight=inflight)
-    slots = repo._slots.qsize() if repo else None
-    if slots != N:
-        bad('slots-not-returned', slots=slots)
+    slots = slot_resources(repo) if repo else None
+    if repo is not None and slots != holder.get('resources'):
+        bad('slots-not-returned', slots=str(slots), before=str(holder.get('resources')))
+    slots = tuple(sorted((k, str(v)) for k, v in (slots or {}).items()))
     if x.blocked:
         bad('blocked-after-quiescence', blocked=x.blocked[:5])
     out['outcome'] = outcome
